@@ -64,6 +64,8 @@ BytesFails(e) ==
    \o (IF acc /\ MHDRRFUZero(e.bytes) /\ (e.rerr # "" \/ ~Has(e, "re")) THEN <<"C08.reencode">>
        ELSE IF acc /\ MHDRRFUZero(e.bytes) /\ e.re # e.bytes THEN <<"C08.reencode">>
        ELSE <<>>)
+   \* the same string decoded into a variable that held other frames before re-encodes to the string as well
+   \o (IF acc /\ MHDRRFUZero(e.bytes) /\ Has(e, "serr") /\ e.rerr = "" /\ (e.serr # "" \/ e.sre # e.bytes) THEN <<"C08.reencode">> ELSE <<>>)
    \o (IF acc /\ e.rerr = "" /\ (e.aerr # "" \/ ~Has(e, "again")) THEN <<"C08.again">>
        ELSE IF acc /\ e.rerr = "" /\ e.again # e.val THEN <<"C08.again">>
        ELSE <<>>)
